@@ -82,6 +82,7 @@ def main(argv):
         ctx.close()
 
     # 5. verdict
+    sys.stdout = sys.__stdout__
     lines, code = [], 0
     for v in ctx.violations:
         path = common.write_replay(pid, {"property": pid, "kind": "property-fails-on-implementation", **v,
